@@ -853,12 +853,24 @@ func (g *pgen) coords(n int) []int64 {
 	return deltas(abs)
 }
 
+// ref is an element id or reference: usually of today's size, sometimes negative (editors' placeholder ids, which the
+// format's signed columns carry) or far beyond it - the columns are 64-bit and delta coded
+func (g *pgen) ref(bits uint) int64 {
+	switch g.r.Intn(25) {
+	case 0:
+		return -1 - g.r.I64n(1<<bits)
+	case 1:
+		return 1<<58 + g.r.I64n(1<<30)
+	}
+	return 1 + g.r.I64n(1<<bits)
+}
+
 func (g *pgen) dense(maxN int) *PDense {
 	r := g.r
 	n := r.Intn(maxN + 1)
 	d := &PDense{IDs: []int64{}, Lat: []int64{}, Lon: []int64{}}
 	ids := make([]int64, n)
-	cur := r.I64n(1 << 33)
+	cur := g.ref(33)
 	for i := range ids {
 		switch r.Intn(6) {
 		case 0:
@@ -912,14 +924,14 @@ func (g *pgen) dense(maxN int) *PDense {
 
 func (g *pgen) way() PWay {
 	r := g.r
-	w := PWay{ID: 1 + r.I64n(1<<34)}
+	w := PWay{ID: g.ref(34)}
 	w.Keys, w.Vals = g.tagCols(true)
 	w.Info = g.info()
 	n := r.Intn(6)
 	if n > 0 || r.Bool() {
 		abs := make([]int64, n)
 		for i := range abs {
-			abs[i] = 1 + r.I64n(1<<34)
+			abs[i] = g.ref(34)
 		}
 		w.Refs = deltas(abs)
 		if r.Chance(25) {
@@ -931,7 +943,7 @@ func (g *pgen) way() PWay {
 
 func (g *pgen) rel() PRel {
 	r := g.r
-	x := PRel{ID: 1 + r.I64n(1<<30)}
+	x := PRel{ID: g.ref(30)}
 	x.Keys, x.Vals = g.tagCols(true)
 	x.Info = g.info()
 	n := r.Intn(5)
@@ -939,7 +951,7 @@ func (g *pgen) rel() PRel {
 		abs := make([]int64, n)
 		x.Roles, x.Types = []int64{}, []int64{}
 		for i := range abs {
-			abs[i] = 1 + r.I64n(1<<34)
+			abs[i] = g.ref(34)
 			x.Roles = append(x.Roles, g.sid(g.str()))
 			x.Types = append(x.Types, int64(r.Intn(3)))
 		}
